@@ -501,4 +501,69 @@ theorem rawSql_eq (c : Cfg) (h : wfRaw c = true) (v : List Char) : rawSql c v = 
         simp [imgNoBs, img, hs]
       · simp [hx, imgNoBs]
 
+/-! ### the general loop (`scanG`) specialises to the one-character, non-raw loop (`scan`) the theorems are about -/
+
+theorem escCondG_single (c : Cfg) (rawEsc : Bool) (cur p : Char) :
+    escCondG c [c.q] false rawEsc cur p = escCond c cur p := by
+  simp [escCondG, escCond, escapedDelimG]
+
+theorem escOutG_single (c : Cfg) (cur p : Char) : escOutG c [c.q] false cur p = escOut c cur p := by
+  simp [escOutG, escOut, escapedDelimG]
+
+theorem scanG_eq_scan_aux (c : Cfg) (rawEsc : Bool) : ∀ (n : Nat) (rest : List Char), rest.length ≤ n →
+    ∀ (cur : Char) (acc : List Char), scanG c [c.q] false rawEsc cur rest acc = scan c cur rest acc := by
+  intro n
+  induction n with
+  | zero =>
+    intro rest h cur acc
+    have : rest = [] := by cases rest <;> simp_all
+    subst this
+    simp [scanG, scan]
+  | succ n ih =>
+    intro rest h cur acc
+    cases rest with
+    | nil => simp [scanG, scan]
+    | cons p rest =>
+      have hl : rest.length ≤ n := by simpa using h
+      cases hu : unescLookup c cur p with
+      | some u =>
+        cases rest with
+        | nil => simp [scanG, scan, hu]
+        | cons x xs =>
+          simp only [scanG, scan, hu, Bool.false_eq_true, if_false]
+          exact ih xs (by simp at hl; omega) x _
+      | none =>
+        cases hc : escCond c cur p with
+        | true =>
+          cases rest with
+          | nil => simp [scanG, scan, hu, hc, escCondG_single]
+          | cons x xs =>
+            simp only [scanG, scan, hu, hc, escCondG_single, escOutG_single, Bool.false_eq_true, if_false, if_true]
+            exact ih xs (by simp at hl; omega) x _
+        | false =>
+          by_cases hq : cur = c.q
+          · subst hq
+            cases rest <;> simp [scanG, scan, hu, hc, escCondG_single, List.isPrefixOf]
+          · have hp : ([c.q].isPrefixOf (cur :: p :: rest)) = false := by
+              simp [List.isPrefixOf]
+              exact fun e => hq e.symm
+            rw [scan_plain c cur p rest acc hu hc hq]
+            cases rest with
+            | nil =>
+              simp only [scanG, hu, hc, escCondG_single, hp, Bool.false_eq_true, if_false]
+              exact ih [] (by simp) p _
+            | cons x xs =>
+              simp only [scanG, hu, hc, escCondG_single, hp, Bool.false_eq_true, if_false]
+              exact ih (x :: xs) hl p _
+
+theorem extractG_single (c : Cfg) (rawEsc : Bool) (s : List Char) : extractG c [c.q] false rawEsc s = extract c s := by
+  unfold extractG extract
+  simp only [List.length_singleton, if_true]
+  cases fastPath c s with
+  | some tr => rfl
+  | none =>
+    cases s with
+    | nil => rfl
+    | cons x xs => simpa [scanL] using scanG_eq_scan_aux c rawEsc xs.length xs (Nat.le_refl _) x []
+
 end SqlglotModel.Str
